@@ -423,7 +423,12 @@ def time_bases_ok(case):
     # index of the first call that is not a guard: the end-of-step invariants are the trailing 'inv' calls on states
     for idx, c in enumerate(case['calls']):
         sig = c['sig']
-        if sig['interp'] != 0 or c['op'] != 'eval' or isinstance(sig['entry'], tuple) or isinstance(sig['idle'], tuple):
+        if sig['interp'] != 0 or c['op'] != 'eval':
+            continue
+        for nm, b in (('after', sig['entry']), ('idle', sig['idle'])):
+            if isinstance(b, tuple) and b[0] in ('none', 'shape'):
+                return '%s() given to the %s of %s is not of the form "time - seconds >= base" (%s)' % (nm, sig['kind'], sig['owner'], b[0])
+        if isinstance(sig['entry'], tuple) or isinstance(sig['idle'], tuple):
             continue
         own = sig['owner']
         name = own[1] if own[0] == 'S' else (trans[own[1]].source if 0 <= own[1] < len(trans) else None)
